@@ -35,6 +35,8 @@ pub enum Runtime {
 pub struct RunCfg {
     pub runtime: Runtime,
     pub hint_override: Option<Hint>,
+    #[serde(default)]
+    pub hint_mask: Option<u64>,
     pub activity: Option<(f32, f32)>,
     pub cancel: CancelPlan,
     pub sort_cb: SortCallback,
@@ -49,6 +51,7 @@ impl Default for RunCfg {
         RunCfg {
             runtime: Runtime::Sync,
             hint_override: None,
+            hint_mask: None,
             activity: None,
             cancel: CancelPlan::Never,
             sort_cb: SortCallback::None,
@@ -285,6 +288,7 @@ impl<'u> Session<'u> {
         prov.cancel.set(cfg.cancel);
         prov.sort_cb = cfg.sort_cb;
         prov.hint_override = cfg.hint_override.clone();
+        prov.hint_mask = cfg.hint_mask;
         prov.logging = cfg.log;
         let log = prov.log.clone();
         match &cfg.runtime {
